@@ -366,6 +366,9 @@ func runHist[T interface {
 				res = slice.Append(arg, arg2)
 			case "Concat":
 				res = slice.Concat([][]T{arg, arg2})
+			case "CollectIdx":
+				// the callback hands back existing pool values
+				res = slice.Collect(func(k int) []T { return pool[k] }, []int{st.I - 1, st.J - 1})
 			case "Map":
 				res = slice.Map(func(x T) T { return c.enc(applyU(st.F, c.dec(x))) }, arg)
 			case "Mapi":
